@@ -50,16 +50,23 @@ def canon_obs_dict(sim, d, f):
     return [[sim.idx[k], f(v)] for k, v in d.items()]
 
 
+def _obs_list(o):
+    """an observation of the stub as a list of ints (a Discrete observation is a single int)"""
+    if isinstance(o, (list, tuple)) or hasattr(o, "__len__"):
+        return [int(x) for x in o]
+    return [int(o)]
+
+
 def entry_of(sim, status, value, is_reset, log_before, pend_before):
     stepped = len(sim.step_log) > log_before
     if status == "ok":
         if is_reset:
-            res = ["r", canon_obs_dict(sim, value, lambda o: [int(x) for x in o])]
+            res = ["r", canon_obs_dict(sim, value, _obs_list)]
         else:
             obs, rew, done, info = value
             alld = done.get("__all__")
             dd = {k: v for k, v in done.items() if k != "__all__"}
-            res = ["s", canon_obs_dict(sim, obs, lambda o: [int(x) for x in o]),
+            res = ["s", canon_obs_dict(sim, obs, _obs_list),
                    canon_obs_dict(sim, rew, int),
                    canon_obs_dict(sim, dd, bool),
                    canon_obs_dict(sim, info, lambda i: [int(i["t"])]),
